@@ -291,6 +291,7 @@ func init() {
 		rc.Assume = append(rc.Assume,
 			"(a) every state of the C03 history search up to the depth bound is probed with 6 method strings (incl. empty and unknown) x hostile paths: '', '*', all strings over {/ a { } : * 0x00 0x80 0xff} up to length 2-3, witnesses and their edit-1 neighbours, 32767/32768/65536-byte paths",
 			"(a') groups with one router behind each matcher kind (Hosts, path version, header version, And, Or, nil) x hostile Host strings (all strings over {a . : [ ] * { 0xff} up to length 3 and a fixed list) x paths x Accept values; matchers also called directly",
+			"(a'') every CORS configuration of C11 x every request of its product extended with malformed Access-Control-Request-Headers values: no panic",
 			"(b) every pattern string over {/ a b { } : - \\ d + ( *} up to the length bound, and every rule text over {a b ( ) | \\ d + * [ ] ? ^ $} up to the rule bound wrapped as /{a:R}, /{a:R}/b, /{-a:R}b, /a/{a:R}, through CheckSyntax, mux.URL, Router.URL (strict and not), Handle on a fresh and on a populated router, then served",
 			"a harness handler never panics on its own; a nil handler given to the CallFunc counts as a router fault")
 		for _, cfg := range []RouterCfg{{}, {Trace: true}} {
@@ -301,6 +302,12 @@ func init() {
 			gi = append(gi, c05GroupItem{Kind: k})
 		}
 		explore.ParMap(rc, "c05/group", gi, func(i int, in c05GroupItem, o simpleOut) { mergeSimple(rc, o, "group_requests") })
+		// headers and options: the full CORS configuration x request product (incl. malformed header lists), no-panic only
+		var ci []corsItem
+		for _, c := range corsConfigs() {
+			ci = append(ci, corsItem{Prop: "C05", Cfg: c})
+		}
+		explore.ParMap(rc, "c11/config", ci, func(i int, in corsItem, o simpleOut) { mergeSimple(rc, o, "cors_requests") })
 		var pi []c05PatItem
 		pi = append(pi, c05PatItem{Prefix: "", Extra: 1}) // lengths 0..1
 		for _, a := range patternBytes {
